@@ -46,7 +46,8 @@ def gen_set(r):
     specs = []
     for i in range(r.randrange(1, 6)):
         kinds = sorted(r.sample(KINDS, r.randrange(1, 4)))
-        sp = {"name": "Cp%d" % i, "kinds": kinds, "order": r.choice((0, 0, 1, 5, -3, None, "raise", "1", 2.5, "first", "@nan", "@badint")),
+        sp = {"name": "Cp%d" % i, "kinds": kinds, "order": r.choice((0, 0, 1, 5, -3, None, "raise", "1", 2.5, "first", "@nan", "@badint",
+                                                                           2 ** 63 - 1, 2 ** 63 - 2, 10 ** 400)),
               "active": r.choice((True, True, True, True, False, "raise")), "ctor_raise": r.random() < 0.08,
               # what goes wrong at import: nothing / the module is missing / the module imports but has no such class /
               # the name is not a dotted path at all
